@@ -708,12 +708,12 @@ func (zeroReader) Read(p []byte) (int, error) {
 func init() {
 	Register(&Prop{ID: "C27", Level: "exploration",
 		Rule: "one case = 5-30 portmap v2 / rpcbind v3,v4 calls (NULL, SET, UNSET, GETPORT/GETADDR, DUMP, unknown versions, unknown procedures, foreign program numbers) from 8 client addresses (IPv4/IPv6 loopback, IPv4-mapped, private and global addresses) over the simulated network against a Portmapper started through its listen seam, transport segmentation on alternate connections, sequential or (30%) under the random scheduler; oracle: every reply strictly decodes (RFC 1831 + RFC 1833 result types), GETPORT/GETADDR/DUMP equal a map model of (prog,vers,prot)->port, SET/UNSET from loopback update it, and the registry (read through GetMappings before and after every call) never changes for a non-loopback client in any protocol version; non-trivial = at least one call; distinct by event digest",
-		Gen: genC27, New: func() any { return &PmScn{} }, Run: runPortmap, Shrink: shrinkPm,
+		Gen:  genC27, New: func() any { return &PmScn{} }, Run: runPortmap, Shrink: shrinkPm,
 		Real:    []string{"Portmapper (StartOnPort, accept loop, connection handler, handleCall, all v2/v3/v4 procedures, Stop)", "record marking"},
 		Stubbed: []string{"kernel TCP (simnet)", "clock", "scheduler", "sync primitives"}})
 	Register(&Prop{ID: "C10", Level: "exploration",
 		Rule: "one case = 20-60 credentials (AUTH_SYS with boundary and random uid/gid, 0-16 auxiliary gids, truncated/empty/17-gid/garbage bodies; AUTH_NONE; unsupported flavors) x squash spellings (root/all/none in mixed case, empty, unknown words), half of them passed as a pre-parsed credential whose auxiliary-gid slice is shared with the caller; oracle: ValidateAuthentication equals the reference squash function (allowed, effective uid, gid, auxiliary gids) and never changes the caller's slice. The property is a pure mapping: the simulator contributes nothing beyond seeded sampling here (end-to-end effects of the effective identity are judged by C11/C12 monitors); non-trivial = at least one credential; distinct by event digest",
-		Gen: genC10, New: func() any { return &AuthScn{} }, Run: runAuth,
+		Gen:  genC10, New: func() any { return &AuthScn{} }, Run: runAuth,
 		Real: []string{"ValidateAuthentication", "applySquashing", "ParseAuthSysCredential"}, Stubbed: []string{"nothing relevant (pure function)"}})
 	Register(&Prop{ID: "C13", Level: "exploration",
 		Rule: "one case = 40-200 codec exercises drawn from: DecodeRPCCall on calls encoded by the independent codec with credential/verifier body lengths 0..9, 399, 400, 401 and a sentinel tail (exact decode, exact consumption, over-limit refused); ParseAuthSysCredential with 0..18 and 100 gids and machine names of 0..5, 255, 8191..8193 bytes and random truncations; EncodeRPCReply decoded by the independent strict RFC 1831 decoder for every reply_stat/accept_stat; RecordMarkingWriter (maxFragment 1..1 MiB) read back by the independent reader and by RecordMarkingReader (identity, incl. records of limit-1 and limit bytes); RecordMarkingReader fed records split into up to 40 fragments (zero-length and 1-byte fragments included) through a reader returning arbitrary 1..7-byte segments, streams cut at every kind of offset (error, never a partial record), and headers declaring 1 MiB+1 .. 2^31-1 bytes (refused, with TotalAlloc growth < 512 KiB); non-trivial = at least one exercise; distinct by event digest. XDR string and file-handle decoders are unexported: their limits are exercised through the server in C14/C15.",
